@@ -28,6 +28,11 @@ import (
 
 const genericMessage = "Internal server error"
 
+// injectedPanic prefixes the value of every deliberate resolver panic, so that
+// the driver can tell a panic thunder failed to contain (process death: a
+// violation) from a crash of the harness itself.
+const injectedPanic = "VERIF-INJECTED-PANIC "
+
 type failKind int
 
 const (
@@ -118,7 +123,7 @@ func failHook(ctx context.Context, typ string, id int64, field string, inBatch b
 	for _, f := range p.fails {
 		if f.matches(typ, id, field) {
 			if f.kind == fPanic {
-				panic(f.token)
+				panic(injectedPanic + f.token)
 			}
 			return f.err
 		}
@@ -289,7 +294,7 @@ func (sc *scenario) checkError(err error, opName string) string {
 		var inner string
 		switch f.kind {
 		case fPanic:
-			inner = "graphql: panic: " + f.token
+			inner = "graphql: panic: " + injectedPanic + f.token
 		default:
 			inner = f.err.Error()
 		}
